@@ -438,6 +438,11 @@ def make_decoy(S, name, u):
     return cfg
 
 
+def warm_extrema(u):
+    mine = u['extrema_opts'] or {}
+    return {'pad_width': 4 if mine.get('pad_width') != 4 else 3, 'parabolic_extrema': not mine.get('parabolic_extrema', False)}
+
+
 def other_variant(name):
     return 'ensemble_sift' if name != 'ensemble_sift' else 'sift'
 
@@ -456,6 +461,14 @@ def call_variant(S, variant, route, nproc, u, sig, style='assign', decoys=True, 
     cfg = apply_config(S, name, base, u, style, history) if route != 'keyword' else None
     if decoys:
         keep += [make_decoy(S, name, u), make_decoy(S, other_variant(name), u)]
+    if route == 'keyword' and history == 'reused':
+        # a caller who keeps ONE imf_opts / envelope_opts dictionary and used it a moment ago (untraced) with OTHER extrema
+        # options: the call under test must still see exactly the options it is handed
+        saved, _T['dir'] = _T['dir'], None
+        try:
+            S.sift(signal(sig)[:64], max_imfs=1, imf_opts=u['imf_opts'], envelope_opts=u['envelope_opts'], extrema_opts=warm_extrema(u))
+        finally:
+            _T['dir'] = saved
     try:
         if variant in ('sift', 'ensemble_sift', 'complete_ensemble_sift', 'mask_sift'):
             x = signal(sig)
@@ -925,6 +938,8 @@ def make_cases(ctx):
                     for style in (('assign', 'path') if nested and r != 'keyword' else ('assign',)):
                         for npc in (procs if v in POOLED else (1,)):
                             add(r, style, npc, 'early' if early and npc == 1 else 'fresh')
+                    if r == 'keyword' and u['envelope_opts']:
+                        add(r, 'assign', 1, 'reused')
                     if early:
                         add(r, 'index', 1, 'early')
                         if v not in POOLED:
@@ -949,6 +964,9 @@ def slim(case):
                        'D1 = get_config(%r), D2 = get_config(%r); configured like D0' % (name, other_variant(name)),
                        'run %s with A by the %s route (keyword: the dictionaries directly, A unused; partial: the result of A.get_func() '
                        'asked for now)' % (case['variant'], case['route'])]
+    if case.get('history') == 'reused':
+        out['sequence'].insert(0, 'emd.sift.sift(x[:64], max_imfs=1, imf_opts=I, envelope_opts=E, extrema_opts=%r) with the SAME dictionary objects '
+                               'I, E that the run below is handed' % warm_extrema(u))
     return out
 
 
@@ -957,7 +975,7 @@ def run(ctx):
                 'option case (nothing, three empty dicts, one non-default value for each of stop_method, env_step_size, sd_thresh, '
                 'rilling_thresh, max_iters, energy_thresh, interp_method, pad_width, parabolic_extrema, loc_pad_opts, mag_pad_opts, and '
                 'all of them at once; thorough adds pchip and the fixed stop rule) x route (keyword dicts, SiftConfig unpacking, get_func '
-                'partial; np.pad dictionaries assigned whole and edited entry by entry) x nprocesses, on %d-sample signals; before and after the '
+                'partial; np.pad dictionaries assigned whole and edited entry by entry; keyword dictionaries fresh, or used a moment before in a plain sift with other extrema options) x nprocesses, on %d-sample signals; before and after the '
                 'configuration under test is set up, decoy SiftConfigs (same and another variant) are given different values for every '
                 'option and never run.  A case is the real call under recording wrappers; it is non-trivial when '
                 'all five stage calls (get_next_imf, interp_envelope upper/lower, get_padded_extrema peaks/troughs) were recorded and, for '
